@@ -86,77 +86,93 @@ def bool_table_of_local(body, dest_local, cmps, label):
     return None, None
 
 
+def eval_put(f, parents):
+    """ranger::Store::put evaluated (K6') with the storage trait's methods answered by an oracle:
+    `parents` = for each parent the store yields, cmp(new, parent) in {-1,0,1} or "err".
+    Returns (rendered result, log of storage effects, prune predicate table or None)."""
+    from . import feval as E
+    st = {"i": 0, "log": [], "pred": None}
+    cur = {"child": None}
+
+    def oracle(kind, name, payload, site):
+        if kind == "cmp":
+            a, b = name, payload
+
+            def order_for(x):
+                if x.startswith("value(parent"):
+                    return parents[int(x[len("value(parent"):-1])]
+                if x == "value(child)":
+                    return cur["child"]
+                return None
+            if a == "value(entry)" and order_for(b) is not None:
+                return order_for(b)
+            if b == "value(entry)" and order_for(a) is not None:
+                return -order_for(a)
+            return None
+        if kind != "call":
+            return None
+        t, args, it = payload
+        names = [it.tokname(x) for x in args]
+        if name == "prefixes_of":
+            st["log"].append(("prefixes_of", names[1:]))
+            return E.Ok(E.Tok("parents"))
+        if name == "into_iter":
+            return args[0]
+        if name == "next" and names and names[0] == "parents":
+            i = st["i"]
+            st["i"] += 1
+            if i >= len(parents):
+                return E.NONE
+            if parents[i] == "err":
+                return E.Some(E.Err(E.Tok("storage-error")))
+            return E.Some(E.Ok(E.Tok("parent%d" % i)))
+        if name == "remove_prefix_filtered":
+            pred = {}
+            for o, nm in ((-1, "Less"), (0, "Equal"), (1, "Greater")):
+                cur["child"] = o
+                r = it.apply(args[2], [E.Tok("value(child)")])
+                pred[nm] = {"0": False, "1": True}.get(E.describe(r, f), E.describe(r, f))
+            cur["child"] = None
+            st["pred"] = pred
+            st["log"].append(("prune", names[1:2]))
+            return E.Ok(E.Tok("removed"))
+        if name == "entry_put":
+            st["log"].append(("entry_put", names[1:]))
+            return E.Ok(E.UNIT)
+        return None
+    try:
+        ret, hp, ev = E.run(f, PUT, [E.href("self"), E.Tok("entry")], {"self": E.Tok("store")}, oracle)
+        return E.describe(ret, f), st["log"], st["pred"]
+    except E.Unsupported as e:
+        return "UNSUPPORTED-FORM: %s" % e, st["log"], st["pred"]
+
+
 def r1(ctx):
     f = ctx.facts
     put = f.body(PUT)
     ctx.touch(put)
-    cmps = [c for c in comparisons(put) if not mir.is_noise(c["x"])]
-    # blocks that construct NotInserted
-    ni = [bi for bi, si, s in put.statements()
-          if s["k"] == "assign" and s["r"][0] == "agg" and s["r"][1][0] == "adt" and s["r"][1][1].endswith("InsertOutcome") and s["r"][1][2] == "NotInserted"]
-    if not ni:
-        raise mir.AnchorMissing("put constructs no InsertOutcome::NotInserted")
-    adm = []
-    for c in cmps:
-        la, lb = _label_put_operand(put, c["a"]), _label_put_operand(put, c["b"])
-        tbl = _table(c, la, lb)
-        if tbl is None:
-            continue
-        if c["dest"]["p"]:
-            continue
-        edges = follow_value(put, c["dest"]["l"])
-        if "true" not in edges:
-            ctx.bad("C02.R1", PUT, "admission-compare.form", "comparison result is not branched on in a recognised form (UNSUPPORTED-FORM)", c["loc"])
-            continue
-        t_edge, f_edge = edges["true"], edges["false"]
-        true_rejects = any(put.edge_dominates(t_edge[0], t_edge[1], b) for b in ni)
-        false_rejects = any(put.edge_dominates(f_edge[0], f_edge[1], b) for b in ni)
-        if true_rejects == false_rejects:
-            continue
-        rejects = {o: (tbl[o] if true_rejects else not tbl[o]) for o in tbl}
-        adm.append((c, rejects))
-    if len(adm) != 1:
-        ctx.bad("C02.R1", PUT, "admission-compare", "expected exactly one comparison of the new entry's value against a parent value that decides NotInserted, found %d" % len(adm), put.sp)
-    else:
-        c, rejects = adm[0]
-        spec = {"Less": True, "Equal": True, "Greater": False}
-        ctx.check(rejects == spec, "C02.R1", PUT, "admission-compare",
-                  "rejected(cmp(new,parent)) = %s; spec (kept exactly when no parent is newer-or-equal): %s" % (rejects, spec), c["loc"])
-    # prune predicate: the closure passed to remove_prefix_filtered
-    bi, t = one_call(put, r"remove_prefix_filtered$")
-    clos = [d for d in t["f"]["tdefs"] if d and "{closure" in d]
-    if len(clos) != 1:
-        raise mir.AnchorMissing("remove_prefix_filtered predicate is not a closure of put")
-    cb = f.body(clos[0])
-    ctx.touch(cb)
-    ccmps = comparisons(cb)
-    def lab(body, op):
-        origs = trace(body, op, view=VIEW_VALUE)
-        ks = set()
-        for o in origs:
-            if o.kind == "upvar" and o.data == "entry":
-                ks.add("new")
-            elif o.kind == "arg" and o.data[0] == 2:
-                ks.add("other")
-            else:
-                ks.add("?")
-        return ks.pop() if len(ks) == 1 else None
-    # the closure's return value
-    ret_tbl = None
-    site = None
-    for c in ccmps:
-        if c["dest"]["l"] == 0:
-            ret_tbl = _table(c, lab(cb, c["a"]), lab(cb, c["b"]))
-            site = c
-    if ret_tbl is None:
-        t0, c0 = bool_table_of_local(cb, 0, ccmps, lab)
-        ret_tbl, site = t0, c0
-    if ret_tbl is None:
-        ctx.bad("C02.R1", PUT, "prune-predicate.form", "prune predicate is not a single (possibly negated) comparison of the new value with the candidate (UNSUPPORTED-FORM)", cb.sp)
-    else:
-        spec = {"Less": False, "Equal": True, "Greater": True}
-        ctx.check(ret_tbl == spec, "C02.R1", PUT, "prune-predicate",
-                  "removed(cmp(new,child)) = %s; spec (removes exactly the not-newer children): %s" % (ret_tbl, spec), site["loc"])
+    # admission: rejected iff some parent is newer or equal (cmp(new,parent) != Greater); a storage error aborts; nothing is mutated on rejection
+    FULL = [("prefixes_of", ["key(entry)"]), ("prune", ["key(entry)"]), ("entry_put", ["entry"])]
+    rows = []
+    preds = []
+    for parents in ([], [-1], [0], [1], [1, -1], [1, 0], [1, 1], [-1, 1], ["err"], [1, "err"]):
+        got, log, pred = eval_put(f, parents)
+        if any(p == "err" for p in parents) and all(p == 1 for p in parents[:parents.index("err")]):
+            want, wlog = "Err(storage-error)", FULL[:1]
+        elif any(p in (-1, 0) for p in parents if p != "err"):
+            want, wlog = "Ok(NotInserted)", FULL[:1]
+        else:
+            want, wlog = "Ok(Inserted(removed))", FULL
+        rows.append((parents, got, want, log == wlog))
+        if pred is not None:
+            preds.append(pred)
+    badr = [(p, g, "spec " + w, "effects as specified: %s" % lo) for p, g, w, lo in rows if g != w or not lo]
+    ctx.check(not badr, "C02.R1", PUT, "admission-compare",
+              "put evaluated on %d parent sequences (cmp(new,parent) per parent): deviating %s; spec: NotInserted iff some parent is not Less than... i.e. cmp(new,parent) != Greater, "
+              "no prune/write before a rejection, prune then write on admission, `removed` = the prune's count" % (len(rows), badr[:4]), put.sp)
+    spec = {"Less": False, "Equal": True, "Greater": True}
+    ctx.check(bool(preds) and all(p == spec for p in preds), "C02.R1", PUT, "prune-predicate",
+              "removed(cmp(new,child)) = %s; spec (removes exactly the not-newer children): %s" % (preds[0] if preds else None, spec), put.sp)
     # the predicate is consulted by the implementation: its result is returned by the retain callback
     rpf = f.body(SI + "remove_prefix_filtered")
     fam = f.family(rpf.path)
@@ -169,40 +185,31 @@ def r1(ctx):
     ctx.check(called, "C02.R1", SI + "remove_prefix_filtered", "predicate-decides",
               "the extract callback returns the predicate's verdict unchanged", rpf.sp)
 
-    # Record order: (timestamp, hash) lexicographic
+    # Record order: (timestamp, hash) lexicographic - Ord::cmp evaluated on the 3x3 orders of the two fields
+    from . import feval as E
     rc = f.body("<sync::Record as std::cmp::Ord>::cmp")
     ctx.touch(rc)
-    first = [(bi, t) for bi, t in rc.calls() if t["f"].get("name") == "cmp"]
-    tw = [(bi, t) for bi, t in rc.calls() if t["f"].get("name") in ("then_with", "then")]
-    ok = False
-    detail = "unrecognised shape"
-    def fields_of(body, op):
-        out = []
-        for o in trace(body, op):
-            out.append((o.kind, o.data if o.kind == "upvar" else (o.data[1] if o.kind == "arg" else None), [p[2] for p in o.projs if p[0] == "field"]))
-        return out
-    if len(first) == 1 and len(tw) == 1:
-        a, b = first[0][1]["a"]
-        fa, fb = fields_of(rc, a), fields_of(rc, b)
-        prim = (len(fa) == 1 and len(fb) == 1 and fa[0][1] == "self" and fb[0][1] == "other"
-                and fa[0][2][-1:] == ["timestamp"] and fb[0][2][-1:] == ["timestamp"])
-        # first operand of then_with is the primary comparison
-        prim_first = any(o.kind == "call" and o.data is first[0][1] for o in trace(rc, tw[0][1]["a"][0], through_calls=False))
-        sec = False
-        if tw[0][1]["f"].get("name") == "then_with":
-            cl = [d for d in tw[0][1]["f"]["tdefs"] if d and "{closure" in d]
-            if cl:
-                cbody = f.body(cl[0])
-                ctx.touch(cbody)
-                cc = [(bi, t) for bi, t in cbody.calls() if t["f"].get("name") == "cmp"]
-                if len(cc) == 1 and cc[0][1]["d"]["l"] == 0:
-                    a2, b2 = cc[0][1]["a"]
-                    ga, gb = fields_of(cbody, a2), fields_of(cbody, b2)
-                    sec = (len(ga) == 1 and len(gb) == 1 and ga[0][1] == "self" and gb[0][1] == "other"
-                           and ga[0][2][-1:] == ["hash"] and gb[0][2][-1:] == ["hash"])
-        ok = prim and prim_first and sec and tw[0][1]["d"]["l"] == 0
-        detail = "primary=timestamp(self,other):%s feeds then_with:%s secondary=hash(self,other):%s" % (prim, prim_first, sec)
-    ctx.check(ok, "C02.R1", "<sync::Record as std::cmp::Ord>::cmp", "lexicographic(timestamp,hash)", detail, rc.sp)
+    tbl = {}
+    NAMES = {-1: "Less", 0: "Equal", 1: "Greater"}
+    for ts in (-1, 0, 1):
+        for h in (-1, 0, 1):
+            def oracle(kind, a, b2, site, ts=ts, h=h):
+                if kind == "cmp":
+                    a, b2 = str(a), str(b2)
+                    if "timestamp" in a and "timestamp" in b2:
+                        return ts if a.startswith("self") else -ts
+                    if "hash" in a and "hash" in b2:
+                        return h if a.startswith("self") else -h
+                return None
+            try:
+                ret, hp, ev = E.run(f, rc.path, [E.href("self"), E.href("other")], {"self": E.Tok("self"), "other": E.Tok("other")}, oracle)
+                tbl[(NAMES[ts], NAMES[h])] = E.describe(ret, f)
+            except E.Unsupported as e:
+                tbl[(NAMES[ts], NAMES[h])] = "UNSUPPORTED-FORM: %s" % e
+    want = {(NAMES[ts], NAMES[h]): (NAMES[ts] if ts != 0 else NAMES[h]) for ts in (-1, 0, 1) for h in (-1, 0, 1)}
+    bad = {k: v for k, v in tbl.items() if v != want[k]}
+    ctx.check(not bad, "C02.R1", "<sync::Record as std::cmp::Ord>::cmp", "lexicographic(timestamp,hash)",
+              "cmp as a function of (cmp of timestamps, cmp of hashes): deviating cells %s; spec: the timestamp decides, the hash breaks ties" % bad, rc.sp)
     pc = f.body("<sync::Record as std::cmp::PartialOrd>::partial_cmp")
     ctx.touch(pc)
     calls = [t for _, t in pc.calls()]
